@@ -74,7 +74,9 @@ def search_molecules(
     connectivity = np.full((len(atoms), len(atoms)), 0)
     connectivity[indices, neighbors] = 1
 
-    molecules = np.asarray(default_array) or np.full(len(atoms), -1)
+    molecules = (
+        np.full(len(atoms), -1) if default_array is None else np.array(default_array)
+    )
 
     if required_size is None:
         required_size = (0, len(atoms))
